@@ -72,7 +72,9 @@ fn main() {
     // counter. No progress for a very long time (cases normally take microseconds) ends the process with exit code 96;
     // bin/check reports that as INCONCLUSIVE (a wall-clock observation is never turned into a violation) and does not
     // let the check pass.
-    {
+    // (not under the UB interpreter: it reports a thread that outlives main as an error, and bin/check's per-shard
+    // timeout already turns an interpreter run that never ends into an inconclusive shard)
+    if ctx.mode != Mode::Miri {
         let limit: u64 = std::env::var("ERV_WATCHDOG_S").ok().and_then(|v| v.parse().ok()).unwrap_or(if ctx.mode == Mode::Native { 120 } else { 900 });
         let (p, t, sd, sh, n) = (prop.clone(), if ctx.thorough() { "thorough" } else { "quick" }, ctx.seed, ctx.shard, ctx.nshards);
         std::thread::spawn(move || {
